@@ -4,7 +4,7 @@
   Safety (prefix / EOF honesty / errors surface) is proved for all schedules of the two-endpoint
   system of Model/Pair.lean, whose wire may drop, delay, reorder *and duplicate* arbitrarily.
   Liveness is false on the faithful model: the full statement is `C06_Live_Statement`, refuted by eight
-  witnesses (F-C06-1 … -8); six of them complete on the model with their repair flag set, F-C06-4 (no
+  witnesses (F-C06-1 … -8); seven of them complete on the model with their repair flag set, F-C06-4 (no
   zero-window probe) has no small repair.
   Liveness is proved — for any amount of data and any configuration with `LiveWF` — on a network that
   loses nothing and delivers in order with a round trip below `retx_threshold` ticks (`C06_live_lossless`, a ranking argument over
@@ -21,13 +21,14 @@ open TV.NetTcp
 
 theorem pinv_init (isnX isnY wndX wndY : Nat) : PInv (Pair.init isnX isnY wndX wndY) := by
   have dir : ∀ (a b w : Nat) (p q : SockAddr),
-      Dir { iss := wadd a 1, tcb := { state := .established, peer := p, sndNxt := wadd a 1, sndUna := wadd a 1,
+      Dir { iss := wadd a 1, tcb := { state := .established, peer := p, sndNxt := wadd a 1, sndUna := wadd a 1, sndMax := wadd a 1,
                                       sndWnd := w, rcvNxt := wadd b 1 } }
-          { iss := wadd b 1, tcb := { state := .established, peer := q, sndNxt := wadd b 1, sndUna := wadd b 1,
+          { iss := wadd b 1, tcb := { state := .established, peer := q, sndNxt := wadd b 1, sndUna := wadd b 1, sndMax := wadd b 1,
                                       sndWnd := wndY, rcvNxt := wadd a 1 } } := by
     intro a b w p q
     refine ⟨⟨0, 0, 0, ?_⟩, ?_, ⟨0, ?_⟩⟩
-    · refine ⟨wadd_lt _ _, by omega, ?_, ?_, by simp, by simp, Or.inl ⟨rfl, by simp⟩, ?_, by simp⟩
+    · refine ⟨wadd_lt _ _, by omega, ?_, ?_, by simp, by simp, Or.inl ⟨rfl, by simp⟩, ?_, by simp,
+        ⟨0, Nat.le_refl _, (wadd_zero _ (wadd_lt _ _)).symm, by simp, by simp⟩⟩
       · exact (wadd_zero _ (wadd_lt _ _)).symm
       · exact (wadd_zero _ (wadd_lt _ _)).symm
       · intro fs hfs; cases hfs
@@ -215,7 +216,7 @@ theorem exhaustion_aborts (threshold max : Nat) (t : Tcb)
   simp [this, h2, Tcb.abort]
 
 example : ∃ t : Tcb, t.timedOut = true ∧ t.recvBuf ≠ [] :=
-  ⟨{ state := .closed, peer := ⟨.host 0 false, 0⟩, sndNxt := 1, sndUna := 1, sndWnd := 1, rcvNxt := 1,
+  ⟨{ state := .closed, peer := ⟨.host 0 false, 0⟩, sndNxt := 1, sndUna := 1, sndMax := 1, sndWnd := 1, rcvNxt := 1,
      timedOut := true, recvBuf := [1] }, rfl, by decide⟩
 
 /-! ## Liveness: full statement, witnesses, repaired variants -/
@@ -364,11 +365,15 @@ def fixed_lostLastAck : List Op :=
     .deliver 13, .egress, .egress, .egress, .egress, .egress, .egress, .egress, .egress, .egress,
     .egress, .read 1 8]
 
-/-- The code as committed in /repo after all repairs of this area (seven flags; `fixOrphanTimeout`
+/-- The code as committed in /repo after all repairs of this area (eight flags; `fixOrphanTimeout`
     was not adopted by the integrator and stays off). -/
 def cfgCommitted : Cfg :=
   { fixReack := true, fixWinUpdate := true, fixHsReset := true, fixRstAfterClose := true, fixReapOrphan := true,
-    fixQuietClose := true, fixSynWindow := true }
+    fixQuietClose := true, fixSynWindow := true, fixSndMax := true }
+
+/-- The tree before the SND.MAX repair of F-C06-8 (seven repairs: 080947f, 018714e, 2fda244, d10c607,
+    b0e0c79, 91a643a, a7d7737). -/
+def cfgCommitted7 : Cfg := { cfgCommitted with fixSndMax := false }
 
 /-- The code with the five repairs that have been committed to /repo (080947f, 018714e, 2fda244,
     d10c607, b0e0c79). -/
@@ -431,6 +436,32 @@ theorem fixed_F_C06_7 :
       (Spec.modelHistory { cfgCommitted with recvCap := 4, sendCap := 16, retxMax := 2 } 2 fixed_overshoot) = none := by
   decide
 
+/-- The repair of F-C06-8 at TCB level, for every state: a sender that had `k` sequence numbers in
+    flight (`snd_max = snd_una + k`) and was rewound to `j < k` (`snd_nxt = snd_una + j`) treats the
+    ACK of the whole earlier flight as valid exactly when it keeps SND.MAX (`fixSndMax`); accepting it
+    frees the bytes, resets the retransmit state and resumes sending at the acknowledged position. -/
+theorem sndmax_accepts_earlier_flight (t : Tcb) (u j k : Nat) (hu : u < M32) (hjk : j < k) (hk : k < M32)
+    (h1 : t.sndUna = u) (h2 : t.sndNxt = wadd u j) (h3 : t.sndMax = wadd u k) :
+    t.ackValid true (wadd u k) = true ∧ t.ackValid false (wadd u k) = false ∧
+    (t.ackAdvance (wadd u k)).sndNxt = wadd u k ∧ (t.ackAdvance (wadd u k)).sndUna = wadd u k ∧
+    (t.ackAdvance (wadd u k)).retxAttempts = 0 ∧ (t.ackAdvance (wadd u k)).egressSinceAck = 0 := by
+  have e1 : wsub (wadd u k) t.sndUna = k := by
+    rw [h1, wsub_wadd u u k hu hu (by rw [wsub_self]; omega), wsub_self]; omega
+  have e2 : t.inFlight = j := by
+    unfold Tcb.inFlight
+    rw [h1, h2, wsub_wadd u u j hu hu (by rw [wsub_self]; omega), wsub_self]; omega
+  refine ⟨?_, ?_, ?_, rfl, rfl, rfl⟩
+  · unfold Tcb.ackValid Tcb.ackBound
+    rw [e1, h3, if_pos rfl, e1]
+    simp; omega
+  · unfold Tcb.ackValid Tcb.ackBound
+    rw [e1, e2]
+    have : ¬ (k ≤ j) := by omega
+    simp [this]
+  · unfold Tcb.ackAdvance
+    dsimp only
+    rw [e1, e2, if_pos hjk]
+
 def witness_ackAboveNxt : List Op :=
     [.listen 0 0 ⟨Ip.any false, 9000⟩, .connect 1 0 0 ⟨Ip.host 0 false, 9000⟩, .cpoll 0 0, .accept 0 1,
     .egress, .deliver 0, .deliver 1, .cpoll 0 0, .accept 0 1, .egress, .deliver 2, .deliver 3,
@@ -460,9 +491,22 @@ set_option maxRecDepth 100000 in
     budget is spent: the server aborts, the client's reader is parked with bytes outstanding. Real
     TCP keeps SND.MAX and accepts ACKs up to it. -/
 theorem witness_F_C06_8 :
-    ¬ C06_Live_Statement { cfgCommitted with sendCap := 64, recvCap := 8, backlog := 4, retxThreshold := 1 } := by
+    ¬ C06_Live_Statement { cfgCommitted7 with sendCap := 64, recvCap := 8, backlog := 4, retxThreshold := 1 } := by
   intro h
   exact absurd (h witness_ackAboveNxt) (by decide)
+
+set_option maxRecDepth 100000 in
+/-- On the committed tree (the repair is `fixSndMax`: the TCB keeps SND.MAX, a cumulative ACK is
+    valid up to it, and an ACK that passes the rewound `snd_nxt` pulls it up) the very same history
+    — same application calls, same wire schedule, no id re-derived — passes the liveness oracle, and
+    not vacuously: it is within the fault budget, ends quiescent, the connection is not aborted and
+    the reader has been handed bytes of the 40-byte write that it never saw before the repair. -/
+theorem fixed_F_C06_8 :
+    let cfg : Cfg := { cfgCommitted with sendCap := 64, recvCap := 8, backlog := 4, retxThreshold := 1 }
+    Spec.c06Liveness cfg (Spec.modelHistory cfg 2 witness_ackAboveNxt) = none ∧
+    Spec.withinBudget cfg (Spec.modelHistory cfg 2 witness_ackAboveNxt) = true ∧
+    Spec.trailingQuiet (Spec.modelHistory cfg 2 witness_ackAboveNxt) ≥ 2 := by
+  refine ⟨by decide, by decide, by decide⟩
 
 set_option maxRecDepth 100000 in
 /-- With the repairs switched on the same scenarios (same application calls, same loss; packet ids
@@ -495,7 +539,7 @@ def LiveWF (cfg : Cfg) (mss : Nat) : Bool :=
 
 theorem linv_init (cfg : Cfg) (isnX isnY wndX wndY : Nat) (h1 : 1 ≤ wndX) (h2 : wndX ≤ advWindow cfg.recvCap 0) :
     LInv cfg (Pair.init isnX isnY wndX wndY) :=
-  ⟨rfl, rfl, rfl, rfl, rfl, rfl, wadd_lt _ _, h1, h2, rfl, rfl, rfl, rfl, rfl, rfl, rfl, rfl, rfl, rfl⟩
+  ⟨rfl, rfl, rfl, rfl, rfl, rfl, wadd_lt _ _, h1, h2, rfl, rfl, rfl, rfl, rfl, rfl, rfl, rfl, rfl, rfl, rfl, rfl⟩
 
 /-- **C06 liveness on a network that loses nothing and delivers in order** (unbounded: any amount
     of data, any configuration with `LiveWF`). Two established endpoints, `x` writes `data` (any
@@ -593,7 +637,7 @@ theorem C06_partial :
         t.recvBuf.length < cap →
         0 < Tcb.acceptLen cap t s ∧ (t.onData cap s).2 = true ∧
           (t.onData cap s).1.recvBuf = t.recvBuf ++ s.payload.take (Tcb.acceptLen cap t s)) ∧
-    (∀ (t : Tcb) (ack : Nat), t.ackValid ack = true →
+    (∀ (t : Tcb) (fm : Bool) (ack : Nat), t.ackValid fm ack = true →
         (t.ackAdvance ack).sndUna = ack ∧ (t.ackAdvance ack).retxAttempts = 0 ∧
           (t.ackAdvance ack).egressSinceAck = 0 ∧
           (t.ackAdvance ack).sendBuf.length ≤ t.sendBuf.length) ∧
@@ -611,7 +655,7 @@ theorem C06_partial :
     refine ⟨hpos, ?_, ?_⟩
     · unfold Tcb.onData; dsimp only; rw [if_pos hpos]
     · unfold Tcb.onData; dsimp only; rw [if_pos hpos]
-  · intro t ack _
+  · intro t fm ack _
     refine ⟨rfl, rfl, rfl, ?_⟩
     unfold Tcb.ackAdvance
     simp only [List.length_drop]
